@@ -79,10 +79,12 @@ pub struct Tweak {
     pub v4: bool,
     pub ll: bool,
     pub ula: bool,
+    /// on rigs with a short hardware address: use the link-local address derived from it
+    pub ll_from_short: bool,
 }
 /// IPv4 scenarios: 192.168.69.1 + fe80::1; IPv6 scenarios: fe80::1 + fd00::1
 fn addrs_for(v6: bool) -> Tweak {
-    Tweak { slaac: false, v4: !v6, ll: true, ula: v6 }
+    Tweak { slaac: false, v4: !v6, ll: true, ula: v6, ll_from_short: false }
 }
 fn std_setup(m: Medium, v6: bool, _v: usize) -> Option<Tweak> {
     if !v6 && m == Medium::Ieee802154 {
@@ -296,15 +298,15 @@ pub const PEER64_EXT: [u8; 8] = [2, 0, 0, 0, 0, 0, 0, 0x64];
 
 /// (name, destination, neighbor to (re-)teach before sending: (its address, its link address,
 /// which of our addresses it solicits))
-fn pair_destinations() -> Vec<(&'static str, [u8; 16], Option<([u8; 16], [u8; 8], [u8; 16])>)> {
+fn pair_destinations(me_ll: [u8; 16]) -> Vec<(&'static str, [u8; 16], Option<([u8; 16], [u8; 8], [u8; 16])>)> {
     vec![
         ("mcast-8bit ff02::1", ALL_NODES6, None),
         ("mcast-32bit ff05::1:3", GROUP6B, None),
         ("mcast-48bit ff02::1:ff00:2", solicited(&PEER6), None),
         ("mcast-inline ff0e:1::1", [0xff, 0x0e, 0, 1, 0, 0, 0, 0, 0, 0, 0, 0, 0, 0, 0, 1], None),
-        ("ll-elided fe80::2", PEER6, Some((PEER6, PEER_EXT, IFACE6))),
-        ("ll-16bit fe80::ff:fe00:1234", PEER16_IP, Some((PEER16_IP, PEER16_EXT, IFACE6))),
-        ("ll-64bit fe80::aaaa:bbbb:cccc:dddd", PEER64_IP, Some((PEER64_IP, PEER64_EXT, IFACE6))),
+        ("ll-elided fe80::2", PEER6, Some((PEER6, PEER_EXT, me_ll))),
+        ("ll-16bit fe80::ff:fe00:1234", PEER16_IP, Some((PEER16_IP, PEER16_EXT, me_ll))),
+        ("ll-64bit fe80::aaaa:bbbb:cccc:dddd", PEER64_IP, Some((PEER64_IP, PEER64_EXT, me_ll))),
         ("global fd00::2", PEER6_ULA, Some((PEER6_ULA, PEER_EXT, IFACE6_ULA))),
     ]
 }
@@ -313,7 +315,7 @@ fn lowpan_only(m: Medium, v6: bool, _v: usize) -> Option<Tweak> {
     if !v6 || m != Medium::Ieee802154 {
         return None;
     }
-    Some(addrs_for(true))
+    Some(Tweak { ll_from_short: true, ..addrs_for(true) })
 }
 
 /// variant = the FIRST datagram of the pair (destination form x {one frame, fragmented}); the
@@ -322,9 +324,14 @@ fn lowpan_only(m: Medium, v6: bool, _v: usize) -> Option<Tweak> {
 /// that was handed to the socket (destination, ports, length): a compressed header that decodes
 /// to something else is not the packet it claims to be.
 fn sc_lowpan_pairs(rig: &mut Rig, _v6: bool, variant: usize) {
-    let dsts = pair_destinations();
+    // on rigs with a short hardware address the link-local address is the one derived from it
+    // (source fully elided by IPHC); the MAC header is then 9 octets towards multicast
+    // destinations (link broadcast) and 15 towards the neighbors (extended addresses: the
+    // neighbor cache of an 802.15.4 interface only ever learns those)
+    let dsts = pair_destinations(rig.cfg.ll());
     let h = udp_socket(rig, 7000, None);
-    let item = |i: usize| -> (usize, usize) { (i / 2, if i % 2 == 0 { 10 } else { 200 }) };
+    // 10 octets: one frame; 300 octets: FRAG1 + two full FRAGN + a short last one
+    let item = |i: usize| -> (usize, usize) { (i / 2, if i % 2 == 0 { 10 } else { 300 }) };
     let mut dport = 9000u16;
     let mut send = |rig: &mut Rig, i: usize| {
         let (d, n) = item(i);
@@ -819,7 +826,7 @@ fn slaac_setup(m: Medium, v6: bool, _v: usize) -> Option<Tweak> {
         return None;
     }
     // one slot stays free for the autoconfigured address
-    Some(Tweak { slaac: true, v4: false, ll: true, ula: false })
+    Some(Tweak { slaac: true, v4: false, ll: true, ula: false, ll_from_short: false })
 }
 fn sc_slaac(rig: &mut Rig, _v6: bool, variant: usize) {
     // router solicitations until a router answers
@@ -962,7 +969,7 @@ fn dhcp_setup(m: Medium, v6: bool, _v: usize) -> Option<Tweak> {
         return None;
     }
     // the address comes from the lease
-    Some(Tweak { slaac: false, v4: false, ll: true, ula: false })
+    Some(Tweak { slaac: false, v4: false, ll: true, ula: false, ll_from_short: false })
 }
 
 /// what examples/dhcp_client.rs does with the socket's events
@@ -1142,7 +1149,7 @@ fn no_v6_setup(m: Medium, v6: bool, _v: usize) -> Option<Tweak> {
     if !v6 || m == Medium::Ieee802154 {
         return None;
     }
-    Some(Tweak { slaac: false, v4: true, ll: false, ula: false })
+    Some(Tweak { slaac: false, v4: true, ll: false, ula: false, ll_from_short: false })
 }
 fn sc_no_v6_addr(rig: &mut Rig, _v6: bool, variant: usize) {
     rig.teach_neighbors();
